@@ -44,6 +44,10 @@ def selftest():
     aesref.selftest()
 
 
+# thorough tier: coverage-guided campaigns (atheris/libFuzzer over this module's strategy, cincoconfig instrumented)
+FUZZ = {"runs": 30000, "campaigns": 4}
+
+
 def budget(tier):
     if tier == "quick":
         return {"cases": 1500, "shards": 2}
